@@ -394,6 +394,9 @@ func csignOps(r *Rng, count int, emit func(string)) {
 	patterns := [][]int{{0, 1, 0}, {0, 1, 1, 0}, {0, 1, 2, 0}, {1, 0, 1, 0}, {0, 0, 1}, {0, 1, 2, 1, 0}, {2, 1, 0}, {0}, {1, 1}}
 	for it := 0; it < count; it++ {
 		typ := []string{"deterministic", "bip44", "collection"}[r.Intn(3)]
+		if it%8 == 7 {
+			typ = "xpub" // watch-only: no secret keys; creating a SIGNED transaction must be refused with an error
+		}
 		nEnt := 2 + r.Intn(3)
 		spec := fmt.Sprintf("%s:%s:%d:0", typ, Hex(r.Bytes(16)), nEnt)
 		addrs, _ := entryKeys(spec)
